@@ -1,6 +1,6 @@
 """Checks built on the bounded stand-ins ACC / INV / CONST (DESIGN.md 4.5) combined with unit X."""
 import os, json, shutil
-from . import acc, xrun, driver, inv, corpus, contracts as C
+from . import acc, xrun, driver, inv, corpus, constck, contracts as C
 from .driver import Outcome, finish, run_x, report_violations
 from .model import *
 
@@ -218,3 +218,54 @@ def check_c14(out: Outcome):
     _report_inv(out, "C14", failures)
     return finish(out, "translation_validation", RUSTC_CMD + "; annotator inventory",
                   explanation="builder existence and exact mask chain from the inventory of the real expansion; type-state by programs that must / must not compile")
+
+
+def check_c15(out: Outcome):
+    allp = corpus.all_programs(out.tier, out.seed)
+    if out.tier == "quick":
+        keep = lambda p: not (p.pid.startswith("bd") and p.pid not in ("bd8", "bd24", "bd33", "bd128")) and p.pid != "all5" \
+            and not p.pid.startswith("kselfov") and not p.pid.startswith("koverlaparr")
+    else:
+        keep = lambda p: not p.pid.startswith("kselfov") and not p.pid.startswith("koverlaparr") and p.pid not in ("all8", "all9")
+    progs = [p for p in allp if keep(p)]
+    work = os.path.join(xrun.WORK, "C15")
+    os.makedirs(work, exist_ok=True)
+    results, runtime, texts = constck.build_and_run(work, progs, out.seed)
+    failures = []
+    for name, (ok, detail) in sorted(results.items()):
+        ob = f"C15/const/{name}"
+        out.add_ob(ob, "const-eval", "rustc const evaluator on the real macro output vs spec.rs", ok)
+        if len(out.samples) < 8 and ok and ("with_" in name or "builder" in name or "new_with" in name):
+            out.samples.append({"obligation": ob, "text": texts.get(name, "")[:400]})
+        if not ok:
+            pid = name.split("/")[0]
+            p = next(q for q in progs if q.pid == pid)
+            failures.append((ob, f"{detail} -- {texts.get(name, '')[:200]}", p, {"const_item": texts.get(name)}))
+    for prof, what in runtime["differs"]:
+        ob = f"C15/runtime-vs-const/{what}/{prof}"
+        out.add_ob(ob, "runtime-vs-const", "native run (black_box inputs) vs the const", False)
+        pid = what.split("/")[0]
+        p = next(q for q in progs if q.pid == pid)
+        failures.append((ob, f"the run-time result differs from the compile-time constant ({prof} profile)", p, {}))
+    out.add_ob("C15/runtime-vs-const/all", "runtime-vs-const", "native run (black_box inputs, debug+release) vs the consts",
+               not runtime["differs"] and runtime["compared"] > 0 or bool(failures))
+    out.programs += len(progs)
+    out.extra["runtime_comparisons"] = runtime["compared"]
+    out.extra["profiles_run"] = runtime["ran"]
+    out.bounded.append(f"C15: {len(results)} const items over {len(progs)} corpus declarations, inputs = boundary patterns + VERIF_SEED-driven values; "
+                       f"{runtime['compared']} run-time re-computations compared with the consts (debug + release)")
+    items = []
+    for ob, detail, p, extra in failures[:10]:
+        # replay = the const item inside its declaration, compiled with the real macro
+        text = p.decl_text() + "\n" + "".join(e.spec_fns() + e.from_discr_fn().replace("pub fn", "pub const fn") for e in p.enums)
+        decl = "mod spec_ { include!(concat!(env!(\"CARGO_MANIFEST_DIR\"), \"/src/spec.rs\")); } use spec_::*;\n" + text + "\n" + (extra.get("const_item") or "")
+        items.append({"obligation": ob, "detail": detail, "program_text": p.decl_text(), "verifier_output": {"rustc": detail}, "inputs": None, "src": None,
+                      "extra": {"acc_declaration": decl, "acc_expect": "accept", "reproduced_by_compilation": True, "needs_spec": True}})
+    report_violations_acc(out, items)
+    if len(failures) > 10:
+        out.extra["further_failed_obligations"] = [f[0] for f in failures[10:]]
+    return finish(out, "other", "cargo build + cargo run (debug, release) of a generated crate using the real macro: const _: () = assert!(op == spec)",
+                  explanation="const-evaluability and compile-time value of every generated operation are decided by rustc's const evaluator on sampled inputs "
+                              "(no deductive verifier can decide const-evaluability); equality with the run-time result for ALL inputs is inherited from the "
+                              "X proofs (run-time result == spec for all inputs, C01-C08/C13) plus determinism of safe integer const evaluation; "
+                              "the same sampled operations are also recomputed natively in debug and release and compared with the consts")
